@@ -123,9 +123,19 @@ func c20PyGen(c *engine.C) engine.Case {
 		writeFuncs()
 	}
 	src := sb.String()
+	// a module analysed earlier in the same process (as CommonAnalysis does for a directory) must not matter
+	before := engine.PickTag(c, "module-analysed-before", "none", "flat-module", "module-ending-inside-nested-blocks", "module-with-open-bracket-continuation")
 	return func() engine.Result {
-		res := engine.Result{InputKey: src, Input: src, Nontrivial: len(classes)+len(funcs)+len(imports) > 0}
+		res := engine.Result{InputKey: before + "|" + src, Input: map[string]string{"analysed_before": before, "module": src}, Nontrivial: len(classes)+len(funcs)+len(imports) > 0}
 		app := new(pyapp.PythonIdentApp)
+		switch before {
+		case "flat-module":
+			app.Analysis("import sys\n\ndef early(x):\n    return x\n", "early.py")
+		case "module-ending-inside-nested-blocks":
+			app.Analysis("class Deep:\n    def a(self):\n        if self:\n            for i in range(3):\n                return i", "deep.py")
+		case "module-with-open-bracket-continuation":
+			app.Analysis("values = [\n    1,\n    2,\n]\n\ndef tail(\n        a,\n        b):\n    return (a +\n            b)\n", "cont.py")
+		}
 		cf := app.Analysis(src, "mod.py")
 		var out []string
 		decoNames := func(as []core_domain.CodeAnnotation) string {
@@ -296,6 +306,8 @@ var c20GoFields = []goField{
 }
 var c20GoCalls = []goCall{
 	{"fmt.Println(\"x\")", "fmt", "Println"}, {"s.helper()", "s", "helper"}, {"defer s.Close()", "s", "Close"}, {"str.ToUpper(\"a\")", "str", "ToUpper"},
+	{"once.Do(func() {\n\t\tfmt.Print(\"in literal\")\n\t})", "once", "Do+fmt.Print"},
+	{"once.Do(func() {\n\t\tdefer fmt.Printf(\"deferred in literal\")\n\t})", "once", "Do+fmt.Printf"},
 }
 
 func c20GoGen(c *engine.C) engine.Case {
@@ -348,14 +360,14 @@ func c20GoGen(c *engine.C) engine.Case {
 	var wantImports []wantImp
 	switch importsKind {
 	case 0:
-		sb.WriteString("import (\n\t\"bytes\"\n\t\"fmt\"\n\tstr \"strings\"\n)\n\n")
-		wantImports = []wantImp{{"bytes", ""}, {"fmt", ""}, {"strings", "str"}}
+		sb.WriteString("import (\n\t\"bytes\"\n\t\"fmt\"\n\tstr \"strings\"\n\t\"sync\"\n)\n\n")
+		wantImports = []wantImp{{"bytes", ""}, {"fmt", ""}, {"strings", "str"}, {"sync", ""}}
 	case 1:
-		sb.WriteString("import \"fmt\"\nimport str \"strings\"\nimport \"bytes\"\nimport \"net/http\"\n\n")
-		wantImports = []wantImp{{"fmt", ""}, {"strings", "str"}, {"bytes", ""}, {"net.http", ""}}
+		sb.WriteString("import \"fmt\"\nimport str \"strings\"\nimport \"bytes\"\nimport \"net/http\"\nimport \"sync\"\n\n")
+		wantImports = []wantImp{{"fmt", ""}, {"strings", "str"}, {"bytes", ""}, {"net.http", ""}, {"sync", ""}}
 	case 2:
-		sb.WriteString("import (\n\t\"bytes\"\n\t\"fmt\"\n\tstr \"strings\"\n\t_ \"embed\"\n)\n\n")
-		wantImports = []wantImp{{"bytes", ""}, {"fmt", ""}, {"strings", "str"}, {"embed", "_"}}
+		sb.WriteString("import (\n\t\"bytes\"\n\t\"fmt\"\n\tstr \"strings\"\n\t_ \"embed\"\n\t\"sync\"\n)\n\n")
+		wantImports = []wantImp{{"bytes", ""}, {"fmt", ""}, {"strings", "str"}, {"embed", "_"}, {"sync", ""}}
 	}
 	writeMethods := func() {
 		for _, m := range methods {
@@ -410,7 +422,11 @@ func c20GoGen(c *engine.C) engine.Case {
 		free = append(free, name)
 		fmt.Fprintf(&sb, "func %s(a string, b int) (string, error) {\n\tfmt.Println(a)\n\treturn a, nil\n}\n\n", name)
 	}
-	sb.WriteString("func compute() int {\n\treturn 1\n}\n\ntype Base struct{}\ntype Node struct{}\ntype Item struct{}\n\nfunc (s Server) helper() {}\nfunc (s Server) Close()  {}\n")
+	if c.Bool("bodyless-function-declaration") {
+		sb.WriteString("func implementedElsewhere(a int) int\n\n")
+		c.Tag("bodyless-function")
+	}
+	sb.WriteString("var once sync.Once\n\nfunc compute() int {\n\treturn 1\n}\n\ntype Base struct{}\ntype Node struct{}\ntype Item struct{}\n\nfunc (s Server) helper() {}\nfunc (s Server) Close()  {}\n")
 	// helper declarations above are part of the file: account for them in the expectation
 	src := sb.String()
 	hasServer := false
@@ -512,8 +528,16 @@ func c20GoGen(c *engine.C) engine.Case {
 				}
 				var want []string
 				for _, cl := range m.Calls {
+					if i := strings.Index(cl.Fn, "+"); i >= 0 {
+						// a call statement whose argument is a function literal containing a call statement
+						want = append(want, cl.Selector+"."+cl.Fn[:i], cl.Fn[i+1:])
+						continue
+					}
 					want = append(want, cl.Selector+"."+cl.Fn)
 				}
+				// each call statement exactly once: compared as a multiset (the statement fixes no order)
+				sort.Strings(got)
+				sort.Strings(want)
 				if strings.Join(got, ",") != strings.Join(want, ",") {
 					res.Violations = append(res.Violations, engine.V("go-calls", "call-list", "method %s.%s records calls %v, statements written %v", t.Name, m.Name, got, want))
 				}
